@@ -90,7 +90,14 @@ package vers
 //@   ensures rejected-constraints: normalizeConstraints(e, constraints).1 != nil ==> result1 != nil && !result0   [C17]
 //@   ensures error-is-false: result1 != nil ==> !result0                                                    [C17]
 
+// the PEP 440 default of the property: a pre-/dev-release probe is excluded unless some constraint names a pre-release;
+// everything else is the generic evaluator on the pypi ecosystem
+//@ func constraintsIncludePrerelease
+//@   ensures any: result == (exists i int :: 0 <= i && i < len(constraints) && containsPrereleaseMarkers(constraints[i]))   [C04]
 //@ func pypiContains
+//@   ensures invalid-probe: ecosystemOf("pypi").NewVersion(version).1 != nil ==> result1 != nil && !result0   [C04 C17]
+//@   ensures gate: ecosystemOf("pypi").NewVersion(version).1 == nil && isPyPIPrerelease(ecosystemOf("pypi").NewVersion(version).0) && !constraintsIncludePrerelease(constraints) ==> !result0 && result1 == nil   [C04]
+//@   ensures otherwise-generic: ecosystemOf("pypi").NewVersion(version).1 == nil && !(isPyPIPrerelease(ecosystemOf("pypi").NewVersion(version).0) && !constraintsIncludePrerelease(constraints)) ==> result0 == contains(ecosystem("pypi"), constraints, version).0 && (result1 == nil) == (contains(ecosystem("pypi"), constraints, version).1 == nil)   [C04]
 //@   ensures error-is-false: result1 != nil ==> !result0                                                    [C17]
 
 // ---- the VERS chain, function by function (C04)
